@@ -1583,9 +1583,7 @@ func (p *Parser) parseRoute() (ast.Item, error) {
 			// Try to parse as statement
 			stmt, err := p.parseStatement()
 			if err != nil {
-				// Skip unknown tokens
-				p.advance()
-				continue
+				return nil, err
 			}
 			body = append(body, stmt)
 			p.skipNewlines()
